@@ -43,6 +43,16 @@ def lookup(V, name):
         return MCls(name)
     if name == 'Parameter':
         return parameter_ns(V)
+    if name in ('T_INT', 'T_STR', 'T_BOOL', 'T_ANY', 'T_PATH'):
+        from .calls import MType
+        return MType({'T_INT': INT, 'T_STR': STR, 'T_BOOL': BOOL, 'T_ANY': ANY, 'T_PATH': PATH}[name])
+    if name == 'T_OBJ':
+        from .calls import MType
+
+        def mk(V_, st, args, kwargs, node):
+            nm = simp(args[0].z)
+            return MType(ObjT(nm.as_string()))
+        return MFn('builtin', 'T_OBJ', impl=mk)
     if name == 'True':
         return SV(BOOL, z3.BoolVal(True))
     if name == 'False':
